@@ -14,6 +14,7 @@ import (
 	"sort"
 	"strings"
 	"sync"
+	"sync/atomic"
 	"testing"
 	"time"
 
@@ -293,7 +294,7 @@ func RunProp(t *testing.T, id string) {
 		if sp.Journal {
 			journal(id, c)
 		}
-		r := sp.Exec(c)
+		r := execSteady(sp, c)
 		if sp.Journal {
 			clearJournal()
 		}
@@ -334,7 +335,7 @@ func RunEnum(t *testing.T, id string, next func() (any, bool)) {
 		if sp.Journal {
 			journal(id, c)
 		}
-		r := sp.Exec(c)
+		r := execSteady(sp, c)
 		if sp.Journal {
 			clearJournal()
 		}
@@ -377,7 +378,7 @@ func RunReplay(t *testing.T) {
 	if sp.Journal {
 		journal(rf.Property, c)
 	}
-	r := sp.Exec(deref(c))
+	r := execSteady(sp, deref(c))
 	if sp.Journal {
 		clearJournal()
 	}
@@ -428,9 +429,40 @@ func trimStack(s string) string {
 	return strings.Join(keep, " <- ")
 }
 
+var (
+	timeouts  atomic.Int64 // time limits hit so far in this process
+	timeScale atomic.Int64 // multiplier applied to every limit (1, or 5 while a case is re-examined)
+)
+
+func init() { timeScale.Store(1) }
+
+// execSteady runs a case; when the result is a violation and a time limit was hit on the way, the case is
+// executed once more with every limit five times as long. A limit hit on a busy machine is not a verdict:
+// only what the second, patient execution reports counts (a case that then passes is classed slow-first-attempt).
+func execSteady(sp *Spec, c any) Result {
+	before := timeouts.Load()
+	r := sp.Exec(c)
+	if r.Viol == "" || timeouts.Load() == before {
+		return r
+	}
+	timeScale.Store(5)
+	r2 := sp.Exec(c)
+	timeScale.Store(1)
+	if r2.Viol == "" {
+		r2.Class("slow-first-attempt")
+	}
+	return r2
+}
+
 // WithTimeout runs f in a goroutine; returns false if it did not finish in d.
 // The goroutine is leaked on timeout (it cannot be killed).
 func WithTimeout(d time.Duration, f func()) (finished bool) {
+	d *= time.Duration(timeScale.Load())
+	defer func() {
+		if !finished {
+			timeouts.Add(1)
+		}
+	}()
 	done := make(chan struct{})
 	go func() {
 		defer close(done)
